@@ -41,7 +41,12 @@ fn mem(slots: usize, size: usize, nbuf: usize) -> SimpleGseMemory {
     for k in 0..nbuf { let mut b = vec![0u8; size].into_boxed_slice(); if size > 0 { b[0] = k as u8 + 1; } let _ = m.provision_storage(b); }
     m
 }
-fn feed<M: MandatoryHeaderExtensionManager>(out: &mut String, d: &mut Dec<M>, pkt: &[u8]) {
+fn feed<M: MandatoryHeaderExtensionManager>(out: &mut String, d: &mut Dec<M>, pkt0: &[u8]) {
+    // every third packet (by content) is presented inside a longer buffer, as in a frame: the consumed length must not depend on it
+    let tail = sum(pkt0) % 3;
+    let mut framed = pkt0.to_vec();
+    if tail == 1 { framed.extend([0u8; 5]); } else if tail == 2 { framed.extend([0xA5u8, 0x5A, 0xFF]); }
+    let pkt: &[u8] = &framed;
     let _ = write!(out, " peek={:?}", d.get_label_or_frag_id(pkt));
     match d.decap(pkt) {
         Ok((DecapStatus::CompletedPkt(b, md), n)) => { let l = md.pdu_len().min(b.len()); let _ = write!(out, " D:Completed n={} md={:?} pdu={}", n, md, show(&b[..l])); let _ = write!(out, " back={:?}", d.provision_storage(b).is_ok()); }
@@ -181,7 +186,15 @@ fn shaped(out: &mut String, r: &mut Rng) {
     let nbuf = r.below(slots + 4);
     let mut d: Dec<Mgr> = Decapsulator::new(mem(slots, 64, nbuf), DefaultCrc {}, Mgr {});
     let la = Label::SixBytesLabel([1, 2, 3, 4, 5, 6]); let lb = Label::ThreeBytesLabel([7, 8, 9]);
-    match r.below(6) {
+    match r.below(7) {
+        6 => { // a lost PDU of the same flow: only its first fragment arrives, then a PDU with the same sizes and metadata
+            let n = 30 + r.below(10); let x = pdu_of(n); let y: Vec<u8> = x.iter().map(|b| b ^ 0x3C).collect(); let fid = 0u8; let bsz = 20 + r.below(4);
+            let mut b = vec![0u8; bsz]; e.disable_re_use_label();
+            if let Ok(EncapStatus::FragmentedPkt(k, _)) = e.encap(&x, fid, EncapMetadata::new(0x0800, la), &mut b) { feed(out, &mut d, &b[..k as usize]); }
+            let mut b = vec![0u8; bsz];
+            let mut ctx = match e.encap(&y, fid, EncapMetadata::new(0x0800, la), &mut b) { Ok(EncapStatus::FragmentedPkt(k, c)) => { feed(out, &mut d, &b[..k as usize]); Some(c) } _ => None };
+            let mut guard = 0; while let Some(c) = ctx { guard += 1; if guard > 8 { break; } let mut b = vec![0u8; 64]; ctx = match e.encap_frag(&y, &c, &mut b) { Ok(EncapStatus::FragmentedPkt(k, c2)) => { feed(out, &mut d, &b[..k as usize]); Some(c2) } Ok(EncapStatus::CompletedPkt(k)) => { feed(out, &mut d, &b[..k as usize]); None } Err(_) => None }; }
+        }
         0 => { // fragment train with duplicates, an over-long intermediate, a corrupted end, the free list topped up
             let pdu = pdu_of(20 + r.below(30)); let fid = [1u8, 5][r.below(2)];
             let mut pk: Vec<Vec<u8>> = vec![]; let mut b = vec![0u8; 16 + r.below(8)];
